@@ -142,6 +142,8 @@ class Table:
         self.gossip_only = set(t["gossipOnly"])
         self.subkinds = t["subkinds"]
         self.forbidden = [tuple(x) for x in t["forbidden"]]
+        self.caps = t["caps"]
+        self.letters = alphabet   # replaced by Letters (alphabet + anchor-only frames) when GenWire prints them
         self.alphabet = alphabet
         self.blank = {k: v[0] for k, v in self.fields.items()}
         self.blank_cfg = {k: v[0] for k, v in self.cfg.items()}
@@ -184,7 +186,7 @@ def build_scenarios(ctx, tab, seqs, anchors):
 
     # anchors: one short sequence per mechanism of the property, in a configuration known to reach it
     for a in anchors:
-        add("anchor:" + a["name"], dict(tab.blank_cfg, **a["cfg"]), [tab.alphabet[x] for x in a["seq"]])
+        add("anchor:" + a["name"], dict(tab.blank_cfg, **a["cfg"]), [tab.letters[x] for x in a["seq"]])
     stats["anchors"] = {"rows": len(anchors)}
     rounds = 3 if ctx.thorough else 1
     for router in routers:
@@ -454,12 +456,16 @@ def run(ctx):
     if not tabs or not alphs or not seqs or not anch:
         raise vlib.Inconclusive("GenWire printed no table / alphabet / sequences (see %s/tlc.out)" % gen.dir)
     tab = Table(tabs[0], alphs[0])
+    lets = gen.printed("LETTERS")
+    if not lets:
+        raise vlib.Inconclusive("GenWire printed no LETTERS")
+    tab.letters = lets[0]
     na = len(tab.alphabet)
     if len(seqs) != na + na ** 2 + na ** 3:
         raise vlib.Inconclusive("GenWire emitted %d sequences, expected %d" % (len(seqs), na + na ** 2 + na ** 3))
     scns, gstats = build_scenarios(ctx, tab, seqs, anch[0])
     scn_file = os.path.join(ctx.work, "scenarios.ndjson")
-    vlib.write_ndjson(scn_file, [{"id": -1, "origin": "blank", "cfg": tab.blank_cfg,
+    vlib.write_ndjson(scn_file, [{"id": -1, "origin": "blank", "cfg": tab.blank_cfg, "caps": tab.caps,
                                   "frames": [{"kind": "Tick", "sub": "hb", "f": tab.blank}]}] + scns)
     ctx.log("scenarios: %d (%s)" % (len(scns), ", ".join("%s=%d" % (k, v.get("rows", 0) + v.get("random_rows", 0) or v.get("replayed", 0))
                                                          for k, v in gstats.items())))
@@ -644,7 +650,38 @@ def run(ctx):
     reach = {"reset_on_toolong": 0, "reset_on_garbage": 0, "eof_or_reset_on_truncated": 0, "rpc_reached_event_loop": 0,
              "hostile_message_delivered": 0, "hostile_message_rejected": 0, "iwant_sent_for_ihave": 0, "prune_sent_for_graft": 0,
              "message_sent_for_iwant": 0, "px_dial": 0, "partial_callback": 0, "testext_callback": 0, "seqno_validator_ran": 0,
-             "filter_dropped_rpc": 0, "graylisted_rpc": 0}
+             "filter_dropped_rpc": 0, "graylisted_rpc": 0,
+             # flood-protection caps: filled exactly and then one more input inside the same heartbeat (the node's own counters
+             # are read from the snapshot for this; they are evidence that the input hit the boundary, never a verdict)
+             "ihave_budget_exact_then_more_scored": 0, "ihave_budget_exact_then_more_unscored": 0, "ihave_rpcs_over_cap": 0,
+             "idontwant_rpcs_at_cap_then_more": 0, "px_flood_with_hanging_dials": 0, "px_flood_with_hanging_dials_scored": 0}
+    caps = tab.caps
+    for i in order:
+        fl = [ln for ln in by[i][1:] if ln["obs"]["alive"] and "iasked" in ln.get("info", {})]
+        cfg = by[i][0]["cfg"]
+        if cfg["router"] != "gossipsub":
+            continue
+        px_ok = cfg["score"] == "off" or cfg["hscore"] == "high"
+        for a, b in zip(fl, fl[1:] + [None]):
+            fa, ia = a["fr"]["f"], a["info"]
+            if a["fr"]["kind"] == "Rpc" and fa["nihave"] != "0" and ia["peerhave"] > caps["MaxIHaveMessages"]:
+                reach["ihave_rpcs_over_cap"] += 1
+            if b is None or b["k"] != a["k"] + 1 or b["fr"]["kind"] != "Rpc":
+                continue
+            fb, ib = b["fr"]["f"], b["info"]
+            same_hb = ib["ticks"] == ia["ticks"]
+            if (same_hb and ia["iasked"] == caps["MaxIHaveLength"] and fb["nihave"] != "0" and fb["ihaveTopic"] == "known"
+                    and fb["ihaveN"] != "0" and fb["ihaveId"] in ("unknown", "huge")
+                    and ib["peerhave"] == ia["peerhave"] + 1 <= caps["MaxIHaveMessages"] and not (cfg["score"] == "on" and cfg["hscore"] == "low")):
+                reach["ihave_budget_exact_then_more_scored" if cfg["score"] == "on" else "ihave_budget_exact_then_more_unscored"] += 1
+            if same_hb and ia["peerdontwant"] == caps["MaxIDontWantMessages"] and fa["nidw"] != "0" and fb["nidw"] != "0":
+                reach["idontwant_rpcs_at_cap_then_more"] += 1
+        for a, b in zip(fl, fl[1:]):
+            fa = a["fr"]["f"]
+            if (a["fr"]["kind"] == "Rpc" and fa["pxId"] == "fresh" and fa["pxRec"] == "valid" and fa["nprune"] == "many"
+                    and fa["pruneTopic"] == "known" and fa["npx"] != "0" and px_ok and cfg["hpeer"] == "known"
+                    and a["info"]["dials"] == caps["Connectors"] and b["k"] == a["k"] + 1 and b["info"]["dials"] == 0):
+                reach["px_flood_with_hanging_dials_scored" if cfg["score"] == "on" else "px_flood_with_hanging_dials"] += 1
     for ln in live:
         fr, obs, info, f = ln["fr"], ln["obs"], ln.get("info", {}), ln["fr"]["f"]
         ev = " ".join(info.get("ev", []))
